@@ -15,7 +15,8 @@ ID = "C18"
 LEVEL = "exploration"
 RULE = (
     "Model-based history generation: Hypothesis draws 1-3 exportable workspaces (all seven modifier types, "
-    "lumi central value != 1, custom normfactor init/bounds, fixed scalar parameters, 1-3 measurements) and "
+    "lumi central value != 1, custom normfactor init/bounds, fixed scalar parameters, 1-3 measurements, a "
+    "sample with negative yields, sometimes a same-structure twin of workspace 0 with other yields) and "
     "a list of 2-7 operations {export workspace i into directory d, import directory d} over 2 temporary "
     "directories; after every import the parsed workspace must be the *latest* export into that directory: "
     "same channels, samples, yields, observations, POI, constant flags (names modulo staterror_<channel>), "
